@@ -6,6 +6,7 @@ import (
 	"encoding/binary"
 	"hash/crc32"
 	"sort"
+	"strings"
 )
 
 // PAR 2.0 packet constants, from the specification.
@@ -17,6 +18,9 @@ var (
 	TypeRecvSlic = typ("PAR 2.0\x00RecvSlic")
 	TypeCreator  = typ("PAR 2.0\x00Creator")
 )
+
+// TypeOf returns the 16-byte packet type for a type string.
+func TypeOf(s string) [16]byte { return typ(s) }
 
 func typ(s string) [16]byte {
 	var t [16]byte
@@ -78,6 +82,10 @@ type FileInfo struct {
 
 // FileID computes the PAR2 file id: MD5(16k-hash, length, name).
 func FileID(name string, data []byte) [16]byte {
+	// the specification hashes the name as a NUL-terminated string
+	if i := strings.IndexByte(name, 0); i >= 0 {
+		name = name[:i]
+	}
 	h16 := hash16k(data)
 	var in []byte
 	in = append(in, h16[:]...)
